@@ -53,7 +53,8 @@ Store ==
     /\ hist' = Append(hist, Op("store", "", "", 0, "", 0, "", "", ""))
     /\ UNCHANGED <<prog, ctr>>
 
-(* label: the proxy's default label is "Contract"; admin "" = none; salt "" = plain instantiate *)
+(* label: the proxy's default label is "Contract"; admin "" = none, "<empty>" = the empty string given as the admin; *)
+(* salt "" = plain instantiate                                                                                      *)
 Instantiate(val, sender, funds, label, admin, salt) ==
     /\ codes >= 1
     /\ CountOps("instantiate") < 2     \* keep histories busy with calls rather than instantiations
@@ -98,7 +99,7 @@ Migrate(val, sender) ==
 
 MNext ==
     \/ Store
-    \/ \E val \in {0, 1}, s \in Senders, f \in {0, 5, 7}, lab \in {"", "lbl"}, adm \in {""} \cup Senders, salt \in {"", "s1"} :
+    \/ \E val \in {0, 1}, s \in Senders, f \in {0, 5, 7}, lab \in {"", "lbl"}, adm \in {"", "<empty>"} \cup Senders, salt \in {"", "s1"} :
            Instantiate(val, s, f, lab, adm, salt)
     \/ \E pm \in MethodsOfKind("exec"), val \in {0, 1}, s \in Senders, f \in {0, 3, 7} : Exec(pm, val, s, f)
     \/ \E pm \in MethodsOfKind("query"), val \in {0, 1} : Query(pm, val)
